@@ -72,6 +72,9 @@ mod translation;
 pub mod verif_delay;
 #[cfg(libp2p_verif)]
 #[doc(hidden)]
+pub mod verif_proto_a;
+#[cfg(libp2p_verif)]
+#[doc(hidden)]
 pub mod verif_swarm_unit;
 
 /// Bundles all symbols required for the [`libp2p_swarm_derive::NetworkBehaviour`] macro.
